@@ -131,6 +131,28 @@ theorem check_ignores_node_metadata (lk : Lookup) (n : Node) (size links inode d
     nodeErrs lk { n with size := size, links := links, inode := inode, device := device } = nodeErrs lk n :=
   nodePacks_ignores_metadata lk n size links inode device
 
+/-- (8) **check walks every listed snapshot, whatever its delete mark and whatever the time is.**  `Repository::check` hands
+`check_repository` the root tree of every snapshot `get_all_snapshots` lists (`snapTrees`); a snapshot saved with
+`--delete-after` whose time has passed (or with `delete-never`) is a listed, restorable snapshot until `forget` removes the
+file.  (a) the root of every listed snapshot is among the trees handed over and among the roots of the walk — no `now`
+occurs in the model of the code; (b) rewriting the delete marks of the snapshot files in ANY way (`remark f`) changes neither
+these trees nor the verdict of the check; (c) whenever the tree walk comes through, the root tree of every listed snapshot —
+marked or not — has been loaded and processed (so, by `check_read_set_covers_all_content`, the packs of all its content are
+read); (d) soundness therefore covers the marked snapshots: a clean check implies that every listed snapshot, in particular
+every one whose delete-after time has passed at any `now`, restores. -/
+theorem check_walks_every_listed_snapshot (w : Bool) (z : Sizes) (rootFix : Bool) (r : Repo) (lk : Lookup) (fuel : Nat) :
+    (∀ s ∈ r.snaps, s.tree ∈ snapTrees r ∧ s.tree ∈ roots r) ∧
+    (∀ f : Snap → DelMark, snapTrees (remark f r) = snapTrees r ∧ roots (remark f r) = roots r ∧
+      checkW w z rootFix (remark f r) lk fuel = checkW w z rootFix r lk fuel) ∧
+    (∀ out, walk (readTree r lk) fuel (roots r) (roots r) = some out →
+      ∀ s ∈ r.snaps, ∃ nodes, (s.tree, nodes) ∈ out ∧ readTree r lk s.tree = some nodes) ∧
+    (LkSound r lk → check z true r lk fuel = .findings [] →
+      ∀ now : Int, ∀ s ∈ r.snaps, mustDelete now s = true → RestoresCorrectly r lk s.tree) := by
+  refine ⟨fun s hs => ⟨List.mem_map.mpr ⟨s, hs, rfl⟩, mem_roots hs⟩,
+    fun f => ⟨snapTrees_remark f r, roots_remark f r, checkW_remark f w z rootFix r lk fuel⟩,
+    fun out hw s hs => reach_processed hw (mem_roots hs) Reach.root,
+    fun hlk h _ s hs _ => check_sound hlk h s hs⟩
+
 /-! ## Witnesses -/
 
 def z0 : Sizes := { entryLen := 37, entryLenComp := 41, overhead := 32, lengthLen := 4 }
@@ -156,7 +178,7 @@ def idx11 : List IFile :=
 
 /-- two stdin-style snapshots (root tree 1 → chunk 3, root tree 2 → chunk 4), undamaged -/
 def good : Repo :=
-  { snapsOk := true, snaps := [⟨1, true⟩, ⟨2, true⟩], indexOk := true, index := idx11,
+  { snapsOk := true, snaps := [{ tree := 1, authentic := true }, { tree := 2, authentic := true }], indexOk := true, index := idx11,
     files := [treeFile 10 10 1 [fileNode [3]], treeFile 20 20 2 [fileNode [4]], dataFile 30 3, dataFile 40 4] }
 
 /-- the same with the two (same-size) root-tree packs exchanged -/
@@ -164,7 +186,7 @@ def swapped11 : Repo :=
   { good with files := [treeFile 10 20 2 [fileNode [4]], treeFile 20 10 1 [fileNode [3]], dataFile 30 3, dataFile 40 4] }
 
 /-- the same with the two snapshot files exchanged -/
-def swapped12 : Repo := { good with snaps := [⟨2, false⟩, ⟨1, false⟩] }
+def swapped12 : Repo := { good with snaps := [{ tree := 2, authentic := false }, { tree := 1, authentic := false }] }
 
 /-- Non-vacuity of the hypotheses and of the conclusion: a concrete undamaged repository is accepted. -/
 example : LkSound good (lkFirst good) ∧ SnapshotsAuthentic good ∧
@@ -192,14 +214,14 @@ theorem snapshot_swap_undetected :
     check z0 true swapped12 (lkFirst swapped12) 9 = .findings [] ∧ ¬ SnapshotsAuthentic swapped12 ∧
     restoreOk swapped12 (lkFirst swapped12) 9 = false := by
   refine ⟨by decide, fun h => ?_, by decide⟩
-  have := h ⟨2, false⟩ (by decide)
+  have := h { tree := 2, authentic := false } (by decide)
   simp at this
 
 /-- Why "unmarked only" matters (history: backup, forget, prune marks the packs, backup again, the index file of the
 second backup is lost): the only index file left lists the tree pack 10 and the data pack 30 as *marked for
 deletion*; both are still stored. -/
 def markedOnly : Repo :=
-  { snapsOk := true, snaps := [⟨1, true⟩], indexOk := true,
+  { snapsOk := true, snaps := [{ tree := 1, authentic := true }], indexOk := true,
     index := [{ packs := [], toDelete := [{ id := 10, blobs := [tblob 1], timeSet := true, size := none },
                                          { id := 30, blobs := [dblob 3], timeSet := true, size := none }] }],
     files := [treeFile 10 10 1 [fileNode [3]], dataFile 30 3] }
@@ -227,7 +249,7 @@ never put pack 20 into the read set and the check was clean (DirsOnly was a hypo
 replayed on the real code by corpus/C05/file_node_subtree.ops: `oracle-fail:silent:swap.pack` before the fix). -/
 def oddNode : Node := { kind := .file, subtree := some 2, content := some [3] }
 def odd : Repo :=
-  { snapsOk := true, snaps := [⟨1, true⟩], indexOk := true, index := idx11,
+  { snapsOk := true, snaps := [{ tree := 1, authentic := true }], indexOk := true, index := idx11,
     files := [treeFile 10 10 1 [oddNode], treeFile 20 20 7 [], dataFile 30 3, dataFile 40 4] }
 
 /-- the snapshot does not restore correctly, and the repaired check says so. -/
@@ -259,6 +281,79 @@ theorem size0_and_hardlink_content_is_read :
     check z0 true hardlinkDamaged (lkFirst hardlinkDamaged) 9 = .findings [.PackHashMismatch] ∧
     restoreOk stdinDamaged (lkFirst stdinDamaged) 9 = false ∧
     restoreOk hardlinkDamaged (lkFirst hardlinkDamaged) 9 = false := by
+  decide
+
+/-- seed C05-6 as a repository state: snapshot 1 (plain) and snapshot 2, saved with `delete-after` = 1000 s, both listed; the data
+pack 40, which only snapshot 2 refers to, is damaged (a flipped bit: the blob decrypts no more). -/
+def expiredDamaged : Repo :=
+  { good with
+    snaps := [{ tree := 1, authentic := true }, { tree := 2, authentic := true, mark := .after 1000 }],
+    files := [treeFile 10 10 1 [fileNode [3]], treeFile 20 20 2 [fileNode [4]], dataFile 30 3, damagedData 40 4] }
+
+/-- at any time — before (`now = 500`) and after (`now = 2000`) the delete-after time — the model of the code reads pack 40 and
+reports the damage, and snapshot 2 does not restore; the same holds with the mark `never` or none. -/
+theorem marked_snapshot_content_is_read :
+    check z0 true expiredDamaged (lkFirst expiredDamaged) 9 = .findings [.PackHashMismatch] ∧
+    check z0 true (remark (fun _ => .never) expiredDamaged) (lkFirst expiredDamaged) 9 = .findings [.PackHashMismatch] ∧
+    restoreOk expiredDamaged (lkFirst expiredDamaged) 9 = false ∧
+    mustDelete 500 { tree := 2, authentic := true, mark := .after 1000 } = false ∧
+    mustDelete 2000 { tree := 2, authentic := true, mark := .after 1000 } = true := by
+  decide
+
+/-- … whereas a check that first drops the snapshots whose delete-after time has passed (`dropExpired`, NOT the code) is clean
+on the same repository once the time has passed, although the listed snapshot 2 cannot be restored (replayed on the real code
+by the faults on the delete-marks repository of the generator: `oracle-fail:silent:flip.pack` … under seed C05-6). -/
+theorem expired_snapshot_skipped_unsound :
+    check z0 true (dropExpired 2000 expiredDamaged) (lkFirst expiredDamaged) 9 = .findings [] ∧
+    check z0 true (dropExpired 500 expiredDamaged) (lkFirst expiredDamaged) 9 = .findings [.PackHashMismatch] ∧
+    ¬ RestoresCorrectly expiredDamaged (lkFirst expiredDamaged) 2 := by
+  refine ⟨by decide, by decide, fun h => ?_⟩
+  obtain ⟨_, nodes, hrd, hall⟩ := h 2 Reach.root
+  have hr : readTree expiredDamaged (lkFirst expiredDamaged) 2 = some [fileNode [4]] := by decide
+  rw [hr] at hrd
+  cases hrd
+  obtain ⟨ids, hc, hd⟩ := hall (fileNode [4]) (by simp) rfl
+  cases hc
+  have := blobOkB_complete (hd 4 (by simp))
+  revert this
+  decide
+
+/-- OPEN FINDING (known_findings.d/C05.json `silent-dup`, corpus/C05/duplicate_copy_damaged.ops): every theorem above speaks about ONE
+look-up `lk` — check's own index — and "restores" means "reads back through that same look-up".  When a blob is stored twice (chunk 3 in the
+data packs 30 and 31, both indexed: one backup writing two files of equal content through different packer threads) the look-up of another
+reader's index may return the other copy (any choice among duplicates satisfies `LkSound`).  Pack 31 is damaged: -/
+def dupRepo : Repo :=
+  { snapsOk := true, snaps := [{ tree := 1, authentic := true }], indexOk := true,
+    index := [{ packs := [{ id := 10, blobs := [tblob 1], timeSet := true, size := none },
+                           { id := 30, blobs := [dblob 3], timeSet := true, size := none },
+                           { id := 31, blobs := [dblob 3], timeSet := true, size := none }], toDelete := [] }],
+    files := [treeFile 10 10 1 [fileNode [3]], dataFile 30 3, damagedData 31 3] }
+
+/-- the last matching entry in index-file order — as admissible an index as `lkFirst` -/
+def lkLast (r : Repo) : Lookup := lkOf (livePacks r).reverse
+
+theorem lkLast_sound (r : Repo) : LkSound r (lkLast r) := by
+  intro t id e h
+  obtain ⟨p, hp, rest⟩ := lkOf_sound (livePacks r).reverse t id e h
+  exact ⟨p, List.mem_reverse.mp hp, rest⟩
+
+/-- … check, whose look-up finds the copy in pack 30, reads pack 30 only and is clean; the reader whose look-up finds the copy in pack 31
+cannot restore the snapshot.  (`check_ok_implies_restorable_partial` is not contradicted: through check's own look-up everything reads back.) -/
+theorem duplicate_copy_unread :
+    LkSound dupRepo (lkFirst dupRepo) ∧ LkSound dupRepo (lkLast dupRepo) ∧
+    check z0 true dupRepo (lkFirst dupRepo) 9 = .findings [] ∧
+    (∀ s ∈ dupRepo.snaps, RestoresCorrectly dupRepo (lkFirst dupRepo) s.tree) ∧
+    ¬ RestoresCorrectly dupRepo (lkLast dupRepo) 1 := by
+  have hc : check z0 true dupRepo (lkFirst dupRepo) 9 = .findings [] := by decide
+  refine ⟨lkFirst_sound _, lkLast_sound _, hc, check_sound (lkFirst_sound _) hc, fun h => ?_⟩
+  obtain ⟨_, nodes, hrd, hall⟩ := h 1 Reach.root
+  have hr : readTree dupRepo (lkLast dupRepo) 1 = some [fileNode [3]] := by decide
+  rw [hr] at hrd
+  cases hrd
+  obtain ⟨ids, hc', hd⟩ := hall (fileNode [3]) (by simp) rfl
+  cases hc'
+  have := blobOkB_complete (hd 3 (by simp))
+  revert this
   decide
 
 end Rustic.Props.C05
